@@ -3386,3 +3386,39 @@ pub fn yield_ins_family(tier: &str) -> Vec<Program> {
     }
     out
 }
+
+/// CV-two: two waiters that wait at most once and a notifier that issues one or two bare
+/// `notify_one` (no mutex held), counts under the mutex how many waiters came back, and then
+/// releases everybody (`done` flag under the mutex + `notify_all`), so that no execution
+/// deadlocks and the outcome sets are compared. A waiter that is queued but still on its way to
+/// blocking when the `notify_one` runs must stay a waiter.
+pub fn cv_two_waiters_family() -> Vec<Program> {
+    let mut out = vec![];
+    let objs = Objs { atomics: vec![0, 0], mutexes: 1, condvars: 1, ..Default::default() };
+    let lk = || Op::from(K::Lock { m: 0 });
+    let ul = || Op::from(K::Unlock { m: 0 });
+    // a0: came back, a1: done
+    let waiter = |post: bool| -> Vec<Op> {
+        let mut v = vec![lk(), ld(1, Sc), K::Wait { cv: 0, m: 0 }.when(1, Res::V(0))];
+        if post {
+            v.push(ld(1, Sc));
+        }
+        v.push(fadd(0, 1, Sc));
+        v.push(ul());
+        v
+    };
+    for post in [false, true] {
+        for n_notifies in 1..=2usize {
+            let mut nt: Vec<Op> = vec![];
+            for _ in 0..n_notifies {
+                nt.push(K::NotifyOne { cv: 0 }.into());
+            }
+            nt.extend(vec![lk(), ld(0, Sc), st(1, 1, Sc), K::NotifyAll { cv: 0 }.into(), ul()]);
+            if n_notifies == 1 {
+                out.push(with_main("CV-two", objs.clone(), vec![], vec![waiter(post), waiter(post)], nt.clone(), vec![]));
+            }
+            out.push(with_main("CV-two-main-waits", objs.clone(), vec![], vec![waiter(post), nt], waiter(post), vec![]));
+        }
+    }
+    out
+}
